@@ -214,7 +214,7 @@ func TestC09(t *testing.T) {
 	col := stats.New("C09", "generated rule sets (as C01, pairwise distinct saliences; built from text or loaded from a binary image), k = 1..5 instances with different facts per instance. (a) every NewKnowledgeBaseInstance call succeeds (before use, after other instances ran/removed rules); (b) every instance's run is validated against fresh single-rule truth and the reference replay; (c) state-hash isolation: a deep hash of everything reachable from a *KnowledgeBase by a generic reflection walk (all engine structs behind pointers/slices/maps, exported or not, incl. memo flags and remembered values; foreign objects by identity) is taken for the blueprint and the other instances before and after one instance executes, retracts and removes rules, and must not change; (d) interleaving: instance 0 is paused inside its j-th listener event while instance 1 runs to its end and has a rule removed and one retracted, then resumes - its trace must validate and equal its stand-alone run; (e) in the race-detector build G in {2,4,16,64} goroutines x GOMAXPROCS in {1,2,16} concurrently create instances from one library and execute them on their own facts: each result equals the sequential one and the detector reports no race. Non-trivial: at least 2 instances with different facts. Distinct by rule text + facts + interleaving point.",
 		"(e) samples schedules: the harness does not own the Go scheduler; the race detector is schedule-insensitive only for accesses that were executed")
 	defer col.Flush()
-	check(t, 0, budget(500, 20000), func(rt *rapid.T) {
+	check(t, 0, budget(1200, 20000), func(rt *rapid.T) {
 		cc, rs := c09Gen(rt)
 		var v []string
 		var info map[string]interface{}
@@ -254,7 +254,7 @@ func TestC09Race(t *testing.T) {
 	col := stats.New("C09", "", "race-detector build: concurrent instance creation and execution")
 	defer col.Flush()
 	defer runtime.GOMAXPROCS(runtime.GOMAXPROCS(0))
-	check(t, 5, budget(12, 120), func(rt *rapid.T) {
+	check(t, 5, budget(24, 160), func(rt *rapid.T) {
 		rc := fullRuleCfg()
 		rc.DistinctSalience = true
 		rc.MinRules, rc.MaxRules = 2, 5
